@@ -210,14 +210,15 @@ class DPTBase(ABC):
                 # Try to parse the value_type if it is a string but not found by cls.transcoder_by_value_type()
                 # for backwards compatibility (eg. "DPT-5") and strings representing numbers (eg. "7", "9.001")
                 string_type = string_type.upper().strip(" DPT-")
-                if string_type.isdigit():
-                    transcoder = cls.transcoder_by_dpt(int(string_type))
-                else:
-                    try:
+                try:
+                    # isdigit() is also true for digits int() does not take (eg. "²")
+                    if string_type.isdigit():
+                        transcoder = cls.transcoder_by_dpt(int(string_type))
+                    else:
                         main, sub = map(int, string_type.split("."))
                         transcoder = cls.transcoder_by_dpt(dpt_main=main, dpt_sub=sub)
-                    except (ValueError, IndexError):
-                        pass
+                except (ValueError, IndexError):
+                    pass
             return transcoder
         if isinstance(value_type, Mapping):
             try:
@@ -226,7 +227,7 @@ class DPTBase(ABC):
                     _sub = int(_sub)
                 else:
                     _sub = None
-            except (KeyError, TypeError, ValueError):
+            except (KeyError, TypeError, ValueError, OverflowError):
                 return None
             return cls.transcoder_by_dpt(dpt_main=main, dpt_sub=_sub)
 
